@@ -27,7 +27,10 @@ SEEDS = {
     "C13-2": ("C13", ["c13_send_config", "c13_send_config_grid_rec3"]),
     "C14-2": ("C14", ["c14_circular_cursors", "c14_cursor_contracts_k", "c14_take_contract"]),
     "C15-1": ("C15", None),
-    "C10-1": ("C10", ["c10_conversion_info_enc_bytes_layout"]),
+    "C10-1": ("C10", ["c10_conversion_info_enc_bytes_layout_n1"]),
+    "C09-2": ("C09", ["c09_boolean_deserialize"]),
+    "C12-2": ("C12", ["c12_shifted_laplace_new_modulus"]),
+    "C06-2": ("C06", ["c06_prss_index128_injective", "c06_prss_index128_try_from", "c06_prss_offset_chunks_distinct"]),
     "C17-1": ("C17", None),
     "C01-1": ("C01", None),
 }
